@@ -61,6 +61,9 @@ def pScenario : P Scenario := do
   let _lateHup ← nat
   let _metDead ← bool
   let _metRace ← bool
+  -- hooks registered from inside the first OnStart hook; the stop signal is a deadline, not a cancel
+  let _lateReg ← bool
+  let _byDeadline ← bool
   let m ← bool
   let t ← bool
   let l ← pListen
